@@ -489,6 +489,9 @@ static int driver_main(int argc, char **argv)
 		std::string desc = fin.failed ? fin.desc : fail_r.desc;
 		std::string casefile = out + ".fail.case";
 		write_case_file(casefile, sh.best, mode, kfcsv, fail_r.tag + ": " + msg);
+		// the case as it was generated, before shrinking: for failures that depend on a schedule a smaller case may
+		// fail less reliably than the one that was found, and the driver falls back to this one
+		write_case_file(out + ".fail.orig.case", fail_buf, mode, kfcsv, fail_r.tag + ": " + fail_r.msg);
 		fail_json = "{\"tag\":\"" + json_escape(fail_r.tag) + "\",\"msg\":\"" + json_escape(msg) + "\",\"desc\":\"" +
 		            json_escape(desc.substr(0, 6000)) + "\",\"replay\":\"" + json_escape(casefile) +
 		            "\",\"reproduced\":" + (repro ? "true" : "false") + "}";
